@@ -2,7 +2,8 @@
 """prints the brief handed to an independent sub-agent that seeds a property-breaking change"""
 import sys
 pid = sys.argv[1]
-wt = f"/tmp/wt/{pid}"
+wave = sys.argv[2] if len(sys.argv) > 2 else "1"
+wt = f"/tmp/wt/{pid}" if wave == "1" else f"/tmp/wt{wave}/{pid}"
 prop = open(f"/tmp/wt/prop_{pid}.txt").read()
 print(f"""You are working alone in a scratch git worktree of the Python library mdominijanni/inferno
 (a spiking-neural-network simulation library on PyTorch) at {wt}. Work ONLY inside {wt}.
@@ -25,7 +26,10 @@ operations, a particular pointer position / size / wrap-around, an unusual but l
 an interaction between two call sites that each look fine alone. Do not choose a change that ordinary
 use would expose at once, and do not pick two mutants in the same few lines.
 The two mutants should touch different mechanisms / different aspects of the property.
-
+""" + ("""At least one of the two should concern a clause of the property OTHER than its first sentence, and at least one should
+involve an interaction of two code sites (or a code path that only a non-default argument / less common class reaches).
+Prefer files and functions that are not the most obvious anchor of the property.
+""" if wave != "1" else "") + f"""
 For EACH mutant (a, b):
  1. Make the change in the worktree (start each from a clean tree: `git -C {wt} checkout -- .`).
  2. Run the existing test suite and make sure it still passes:
